@@ -45,6 +45,8 @@ def spaces(tier):
         dict(size=1, level=l, cfg=c, t0=list(gen.T0S), mut='all', faults='mkdir') for l in (0, 2) for c in ('K0', 'K1')
     ] + [
         dict(size=1, level=2, cfg='K0', t0=list(gen.T0S), mut='none', kw=longp),
+        dict(size=1, level=2, cfg='K0', t0=list(gen.T0S), mut='none',
+             kw=dict(paths=['d/n\0x/z', 'n\0x/z', 'd/e/n\0x/z'], bf_modes=['ok', 'rb', 'ra'], sb_modes=[])),
         dict(size=2, level=2, cfg='K0', t0=['empty', 'dir_d_j', 'full', 'file_d'], mut='outputs', faults='mkdir'),
         dict(family='chain3', size=3, level=1, cfg='K0', t0=['empty'], mut='none', faults='mkdir'),
         dict(family='pairs', size=1, level=2, cfg='K0', t0=['empty', 'full', 'dir_d_j'], mut='none', faults='mkdir'),
